@@ -40,7 +40,11 @@ type State struct {
 	steps   int
 	trail   []string // human readable path description (block indices)
 	rules   map[int]*genRule
+	// arrays produced by []rune(s) with their content at that time (so that string(runes[a:b]) can be related to s)
+	runeOrigins []runeOrigin
 }
+
+type runeOrigin struct{ arr, content, s *Term }
 
 // genRule links a memory generation to its predecessor: heaps for which preserved(name) holds were not written by the call that
 // started the generation, so their content is the predecessor's.
@@ -52,7 +56,7 @@ type genRule struct {
 func (st *State) frame() *Frame { return st.frames[len(st.frames)-1] }
 
 func (st *State) clone() *State {
-	n := &State{gen: st.gen, top: st.top, steps: st.steps, rules: st.rules}
+	n := &State{gen: st.gen, top: st.top, steps: st.steps, rules: st.rules, runeOrigins: st.runeOrigins}
 	n.pc = append([]*Term(nil), st.pc...)
 	n.trail = append([]string(nil), st.trail...)
 	n.heap = make(map[string]*Term, len(st.heap))
